@@ -2,8 +2,8 @@
 # usage: seedregress.sh [name...]   (default: every directory under /verif/seeded)
 # Re-applies each stored seeded change to a scratch worktree of /repo HEAD and runs the property's
 # quick check against it: every one must still be reported (exit 1 with a VIOLATION line).
-# The evidence/replay files written by these runs describe the mutated tree: the script restores
-# /verif/evidence from git afterwards.
+# (runs against another tree write their evidence under .work/, not evidence/)
+
 export GOFLAGS=-mod=mod GOPROXY=off GOSUMDB=off GOTOOLCHAIN=local
 V=$(cd "$(dirname "$0")/.." && pwd)
 cd $V
@@ -28,7 +28,7 @@ for n in $names; do
   git -C /repo worktree remove --force $W >/dev/null 2>&1
 done
 git -C /repo worktree prune
-git -C $V checkout -- evidence 2>/dev/null
+
 rm -rf /tmp/seedreg
 echo "seedregress: missed=$miss"
 [ $miss -eq 0 ]
